@@ -133,6 +133,14 @@ class ClassInfo:
     def repo_mro(self) -> list["ClassInfo"]:
         return [c for c in self.mro() if isinstance(c, ClassInfo)]
 
+    def mro_methods(self) -> dict[str, list["FuncInfo"]]:
+        """The methods an instance of this class has: its own and those inherited from repository base classes
+        (a class split into base / mixin + original keeps being judged as one class)."""
+        out: dict[str, list[FuncInfo]] = {}
+        for c in reversed(self.repo_mro()):
+            out.update(c.methods)
+        return out
+
     def external_bases(self) -> list[str]:
         return [c for c in self.mro() if isinstance(c, str)]
 
@@ -179,7 +187,8 @@ def _c3(cls: ClassInfo) -> list[Any]:
         else:
             raise AnalysisError(f"inconsistent MRO for {cls.fq}")
         res.append(cand)
-        seqs = [[x for x in s if x is not cand] if s[0] is cand or cand in s else s for s in seqs]
+        # repository classes compare by identity, external bases (full names) by value
+        seqs = [[x for x in s if not (x is cand or (isinstance(x, str) and x == cand))] for s in seqs]
         seqs = [s for s in seqs if s]
     return res
 
@@ -197,6 +206,12 @@ class Module:
     consts: dict[str, ast.expr] = field(default_factory=dict)
     const_order: list[tuple[str, ast.expr]] = field(default_factory=list)
     is_package: bool = False
+
+    def __deepcopy__(self, memo):
+        return self  # nodes carry a reference to their module (`_mod`): copying a node must not copy the module
+
+    def __copy__(self):
+        return self
 
     def __repr__(self) -> str:
         return f"<module {self.name}>"
@@ -272,6 +287,7 @@ class Program:
         self.node_module: dict[ast.AST, Module] = {}
         for m in self.modules.values():
             for parent in ast.walk(m.tree):
+                parent._mod = m  # type: ignore[attr-defined]  origin module: survives copy / deepcopy of the node
                 for ch in ast.iter_child_nodes(parent):
                     self.parents[ch] = parent
         self.func_of_node: dict[ast.AST, FuncInfo] = {}
@@ -442,8 +458,19 @@ class Program:
             return Def("external", f"builtins.{name}")
         return None
 
+    def origin(self, m: Module, node: ast.AST) -> Module:
+        """The module whose source a node comes from: statement nodes of a helper that was written out into a
+        function of another module (sa/inline.py shares them) keep resolving names, types and call facts where
+        they were written.  Nodes the analysis synthesised itself belong to the module the caller names."""
+        mm = getattr(node, "_mod", None)
+        if mm is not None:
+            return mm
+        nm = getattr(self, "node_module", None)
+        return nm.get(node, m) if nm else m
+
     def resolve_expr(self, m: Module, expr: ast.expr) -> Def | None:
         """Resolve a Name / dotted Attribute statically (module scope)."""
+        m = self.origin(m, expr)
         if isinstance(expr, ast.Name):
             return self.resolve_name(m, expr.id)
         if isinstance(expr, ast.Attribute):
@@ -512,6 +539,23 @@ class Program:
 
     def subclasses(self, c: ClassInfo) -> list[ClassInfo]:
         return [k for k in self.all_classes() if k is not c and c in k.mro()]
+
+    def aliases_of(self, f: "FuncInfo") -> set[str]:
+        """Every dotted name under which a module-level function can be imported: where it is defined and where
+        it is re-exported (`from ._handlers import get_x` in the package keeps `package.get_x` a name of it)."""
+        al = getattr(self, "_aliases", None)
+        if al is None:
+            al = {}
+            for m in self.modules.values():
+                for name in m.imports:
+                    try:
+                        d = self.resolve_name(m, name)
+                    except AnalysisError:
+                        continue
+                    if d is not None and d.kind in ("func", "class"):
+                        al.setdefault(d.obj, set()).add(f"{m.name}.{name}")
+            self._aliases = al
+        return {f.fq} | al.get(f, set())
 
     def func(self, fq: str) -> FuncInfo:
         d = self.lookup_fullname(fq)
@@ -585,6 +629,7 @@ class Program:
         return (node.lineno, node.col_offset, node.end_lineno, node.end_col_offset)
 
     def type_of(self, m: Module, node: ast.expr) -> str | None:
+        m = self.origin(m, node)
         et, _, _ = self._mod_index(m)
         lst = et.get(self._pos(node))
         if not lst:
@@ -595,7 +640,58 @@ class Program:
                 return t
         return lst[0][1]
 
+    def protocol_impl(self) -> dict[str, str]:
+        """{repository Protocol class -> the one class whose instances are stored where the protocol is expected}.
+
+        A `typing.Protocol` introduced for an implicit interface (`self._client: BrokerClient | None`) changes what
+        mypy reports for calls through it (BrokerClient.publish instead of aiomqtt's Client.publish) but not what
+        runs: when every value stored into the places annotated with the protocol is an instance of one class, calls
+        through the protocol are calls of that class."""
+        cached = getattr(self, "_protocol_impl", None)
+        if cached is not None:
+            return cached
+        protos = {c.fq: c for c in self.all_classes() if any(isinstance(b, str) and b.rsplit(".", 1)[-1] == "Protocol" for b in c.bases)}
+        out: dict[str, str] = {}
+        if protos:
+            anns: dict[str, set] = {}  # attribute name -> protocol fqs it is annotated with
+            for f in self.all_functions():
+                for n in ast.walk(f.node):
+                    if isinstance(n, ast.AnnAssign) and isinstance(n.target, ast.Attribute):
+                        for x in ast.walk(n.annotation):
+                            if isinstance(x, (ast.Name, ast.Attribute)):
+                                d = self.resolve_expr(f.module, x)
+                                if d is not None and d.kind == "class" and d.obj.fq in protos:
+                                    anns.setdefault(n.target.attr, set()).add(d.obj.fq)
+            impls: dict[str, set] = {}
+            for f in self.all_functions():
+                for n in ast.walk(f.node):
+                    tg = n.targets if isinstance(n, ast.Assign) else [n.target] if isinstance(n, ast.AnnAssign) and n.value is not None else []
+                    for t in tg:
+                        if isinstance(t, ast.Attribute) and t.attr in anns and not (isinstance(n.value, ast.Constant) and n.value.value is None):
+                            ty = None
+                            if isinstance(n.value, ast.Call):
+                                fact = self._raw_call_fact(f.module, n.value)
+                                ty = fact[0] if fact else None
+                            for p_ in anns[t.attr]:
+                                impls.setdefault(p_, set()).add(ty)
+            for p_, tys in impls.items():
+                if len(tys) == 1 and None not in tys:
+                    out[p_] = next(iter(tys))
+        self._protocol_impl = out
+        return out
+
     def call_fact(self, m: Module, node: ast.Call):
+        fact = self._raw_call_fact(m, node)
+        if fact and fact[0] and fact[0].startswith("aiomysensors."):
+            impl = self.protocol_impl()
+            if impl:
+                owner, _, meth = fact[0].rpartition(".")
+                if owner in impl:
+                    return (f"{impl[owner]}.{meth}",) + tuple(fact[1:])
+        return fact
+
+    def _raw_call_fact(self, m: Module, node: ast.Call):
+        m = self.origin(m, node)
         _, cf, _ = self._mod_index(m)
         lst = cf.get(self._pos(node))
         if not lst:
@@ -616,6 +712,7 @@ class Program:
         return lst[0]
 
     def ref_fullname(self, m: Module, node: ast.expr) -> str | None:
+        m = self.origin(m, node)
         _, _, rf = self._mod_index(m)
         lst = rf.get(self._pos(node))
         if not lst:
@@ -779,6 +876,7 @@ class Folder:
 
     def fold(self, m: Module, expr: ast.expr, local: dict[str, Any] | None = None) -> Any:
         p = self.prog
+        m = p.origin(m, expr)
         if isinstance(expr, ast.Constant):
             return expr.value
         if isinstance(expr, ast.Name):
